@@ -216,7 +216,19 @@ func (m *Model) altMatches(alt, whole *Term, wu *writeUnit, col string, ev map[*
 		}
 		return false
 	case "sqlexpr":
-		return isScanOf(alt, col, true)
+		if isScanOf(alt, col, true) {
+			return true
+		}
+		// the "no row" value of the read-back variable travels with the scan alternative (on that
+		// path the read-back fails and no event is produced)
+		if isZeroTerm(alt) && alt.Name == "norow" {
+			for _, o := range whole.alts() {
+				if isScanOf(o, col, true) {
+					return true
+				}
+			}
+		}
+		return false
 	case "unassigned":
 		// column untouched: the event must report the row's value (read before or after), or
 		// zero when the statement can only create a row (plain INSERT: column default)
